@@ -163,3 +163,147 @@ def rule_pairs_groupers(ctx) -> RuleResult:
                 if gs is not None and any(r in norm(gs) for r in REORDER):
                     res.report(f"{q}|ravel-shape-order", f.where(c), q, f"grp_shape={norm(gs)} is re-ordered relative to the codes")
     return res
+
+
+# ---------------------------------------------------------------------------------------------
+# R-LAYOUT (C08, C01): flattening never depends on memory layout.
+# Labels and values are flattened / collapsed by *separate* reshape calls and then paired element by element.  The pairing survives only
+# if both calls enumerate elements in the same index order.  order='A' / 'K' enumerate in memory order, which is a property of each
+# array's history (a transposed view, a Fortran-ordered input, a dask block), not of its indices: the labels are always freshly built
+# C-ordered codes, the values are whatever the user passed.
+_FLATTENERS = {"reshape", "ravel", "flatten"}
+
+
+def rule_layout(ctx) -> RuleResult:
+    res = RuleResult("R-LAYOUT", "reshape / ravel / flatten enumerate elements in index order, never in memory order", min_instances=10)
+    n = 0
+    for q, f in sorted(ctx.prog.funcs.items()):
+        if isinstance(f.node, ast.Lambda) or f.is_overload:
+            continue
+        for c in calls_in(f.node):
+            name = c.func.attr if isinstance(c.func, ast.Attribute) else (c.func.id if isinstance(c.func, ast.Name) else "")
+            if name not in _FLATTENERS:
+                continue
+            n += 1
+            o = kwarg(c, "order")
+            if o is None and name in ("ravel", "flatten") and isinstance(c.func, ast.Attribute) and len(c.args) == 1 \
+                    and isinstance(c.args[0], ast.Constant) and isinstance(c.args[0].value, str):
+                o = c.args[0]
+            if o is None:
+                if n <= 60:
+                    res.inst(f"{q}: {norm(c)[:50]} (default C order)", f"{q}|{norm(c)[:40]}")
+                continue
+            val = o.value if isinstance(o, ast.Constant) else None
+            res.inst(f"{q}: {norm(c)[:60]} order={norm(o)}", f"{q}|{norm(c)[:40]}")
+            if val == "C":
+                continue
+            if val in ("A", "K"):
+                res.report(f"{q}|layout-dependent|{norm(c.func)[:30]}", f.where(c), q,
+                           f"'{norm(c)[:70]}' enumerates elements in memory order, which differs between a freshly built label array and a transposed / "
+                           "Fortran-ordered value array: values are paired with the labels of other positions (silently wrong groups for F-ordered input)")
+                continue
+            # a variable order: every value it can hold is a constant 'C' / 'F'
+            consts = None
+            if isinstance(o, ast.Name):
+                vals = [a.value for a in walk_own(f.node) if isinstance(a, ast.Assign) and any(isinstance(t, ast.Name) and t.id == o.id for t in a.targets)]
+                if vals and all(isinstance(v, ast.Constant) and v.value in ("C", "F") for v in vals) and o.id not in f.params:
+                    consts = {v.value for v in vals}
+            if consts is not None and "F" in consts:
+                pm = parents_map(f.node)
+                for a in walk_own(f.node):
+                    if isinstance(a, ast.Assign) and isinstance(a.value, ast.Constant) and a.value.value == "F" \
+                            and any(isinstance(t, ast.Name) and t.id == o.id for t in a.targets):
+                        par = pm.get(id(a))
+                        blk = next((b for fld in ("body", "orelse") for b in [getattr(par, fld, None)] if isinstance(b, list) and any(a is s_ for s_ in b)), [])
+                        paired = any(isinstance(c2, ast.Call) and isinstance(kwarg(c2, "order"), ast.Constant) and kwarg(c2, "order").value == "F"
+                                     for s_ in blk for c2 in ast.walk(s_))
+                        res.inst(f"{q}: '{norm(a)}' recorded next to a Fortran-order flatten of the partner: {paired}", f"{q}|rec|{a.lineno}")
+                        if not paired:
+                            res.report(f"{q}|unpaired-fortran-order|{o.id}", f.where(a), q,
+                                       f"'{norm(a)}' makes '{norm(c)[:50]}' flatten in Fortran order, but the partner array is not flattened in Fortran order "
+                                       "in the same branch: labels and values are enumerated differently")
+            if val is None and consts is None:
+                res.report(f"{q}|layout-unknown|{norm(c.func)[:30]}", f.where(c), q,
+                           f"'{norm(c)[:70]}': the flattening order is not a constant 'C'/'F' (or a local that only holds those): it may be memory order")
+                continue
+            # Fortran order is index order too, but only sound when the partner array is flattened the same way: a constant 'F' must be
+            # recorded in a local (in the same block) that another flattening call of this function uses
+            if val == "F":
+                pm = parents_map(f.node)
+                blk = None
+                cur = c
+                while cur is not None and blk is None:
+                    par = pm.get(id(cur))
+                    for fld in ("body", "orelse"):
+                        b = getattr(par, fld, None) if par is not None else None
+                        if isinstance(b, list) and any(cur is s_ for s_ in b):
+                            blk = b
+                    cur = par
+                recorded = {t.id for s_ in (blk or []) if isinstance(s_, ast.Assign) and isinstance(s_.value, ast.Constant) and s_.value.value == "F"
+                            for t in s_.targets if isinstance(t, ast.Name)}
+                partner = [c2 for c2 in calls_in(f.node) if c2 is not c and isinstance(kwarg(c2, "order"), ast.Name) and kwarg(c2, "order").id in recorded]
+                res.inst(f"{q}: Fortran-order flatten paired through {sorted(recorded)} with {[norm(p)[:40] for p in partner]}", f"{q}|pair")
+                if not partner:
+                    res.report(f"{q}|unpaired-fortran-order|{norm(c.func)[:30]}", f.where(c), q,
+                               f"'{norm(c)[:70]}' flattens in Fortran order, but no partner array is flattened with the same recorded order: "
+                               "labels and values are enumerated differently")
+    res.inst(f"{n} reshape/ravel/flatten calls examined", "count")
+    return res
+
+
+# ---------------------------------------------------------------------------------------------
+# R-CODEDEP (C07): with lazy labels, every grouper's codes come from factorizing *that grouper's label values*.
+# The ravelled multi-grouper code keeps -1 (drop the element) if any grouper says -1.  A grouper whose codes are built from metadata only
+# (zeros of the right shape for a single-group grouper, say) can never say -1: elements outside its one group are silently kept.
+def rule_codedep(ctx) -> RuleResult:
+    res = RuleResult("R-CODEDEP", "with lazy labels every grouper's codes are computed from that grouper's label values", min_instances=1)
+    f = ctx.prog.func("core._factorize_multiple")
+    rav = [c for c in calls_in(f.node) if any(isinstance(a, ast.Name) and a.id == "_ravel_factorized" for a in c.args[:1])]
+    if not rav:
+        raise AnalysisError("_factorize_multiple: the lazy ravel map_blocks(_ravel_factorized, *codes, ...) is gone (anchor)")
+    for c in rav:
+        starred = [a.value for a in c.args if isinstance(a, ast.Starred)]
+        for sv in starred:
+            defs = []
+            if isinstance(sv, ast.Name):
+                for a in walk_own(f.node):
+                    if isinstance(a, ast.Assign) and any(isinstance(t, ast.Name) and t.id == sv.id for t in a.targets):
+                        defs.append(a.value)
+            else:
+                defs.append(sv)
+            for d in defs:
+                if not isinstance(d, (ast.ListComp, ast.GeneratorExp)) and not (isinstance(d, ast.Call) and norm(d.func) in ("tuple", "list") and d.args
+                                                                                 and isinstance(d.args[0], (ast.ListComp, ast.GeneratorExp))):
+                    res.notes.append(f"UNDECIDED: per-grouper codes '{norm(d)[:60]}' are not built by a comprehension over the groupers")
+                    res.inst(f"_factorize_multiple: codes = {norm(d)[:50]} [unrecognised]", "codes")
+                    continue
+                comp = d if isinstance(d, (ast.ListComp, ast.GeneratorExp)) else d.args[0]
+                label_vars = set()
+                for g in comp.generators:
+                    label_vars |= names_in(g.target)
+                alts = []
+
+                def leaves(e):
+                    if isinstance(e, ast.IfExp):
+                        leaves(e.body)
+                        leaves(e.orelse)
+                    else:
+                        alts.append(e)
+                leaves(comp.elt)
+                for e in alts:
+                    direct = [a for a in (e.args if isinstance(e, ast.Call) else []) if isinstance(a, ast.Name) and a.id in label_vars]
+                    callee_ok = False
+                    if isinstance(e, ast.Call):
+                        for a in e.args[:1] + [e.func]:
+                            nm = a.id if isinstance(a, ast.Name) else None
+                            g = ctx.prog.funcs.get(f"core.{nm}") if nm else None
+                            if g is not None and any(norm(x.func) in ("factorize_", "_factorize_single") for x in calls_in(g.node)):
+                                callee_ok = True
+                    ok = bool(direct) and callee_ok
+                    res.inst(f"_factorize_multiple: grouper codes '{norm(e)[:60]}': factorizer applied to the label values: {ok}", f"alt|{norm(e)[:40]}")
+                    if not ok:
+                        res.report(f"core._factorize_multiple|codes-from-metadata|{norm(e)[:30]}", f.where(e), f.qualname,
+                                   f"one alternative for a grouper's lazy codes, '{norm(e)[:70]}', is not the factorizer applied to that grouper's label values "
+                                   f"({'uses only ' + ', '.join(sorted({norm(x)[:20] for x in ast.walk(e) if isinstance(x, ast.Attribute) and isinstance(x.value, ast.Name) and x.value.id in label_vars})) if not direct else 'callee does not factorize'}): "
+                                   "such a grouper can never code an element as -1, so elements with a missing / unrequested / out-of-bin label in it are kept")
+    return res
